@@ -5,24 +5,29 @@ package main
 // Real code: echo.Response (WriteHeader / Write / Flush / Before / After) and the echo.Context
 // response helpers, driven by a handler program through e.ServeHTTP (or e.NewContext) on top
 // of a recording http.ResponseWriter that follows net/http's rule.
-// Model: lean/EchoModel/C06.lean (runSnaps).
+// Model: lean/EchoModel/C06.lean (runSeqObs: runSnaps per request, reset between requests).
 
 import (
+	"bufio"
 	"errors"
 	"fmt"
 	"io"
+	"io/fs"
 	"log"
-	"math/rand"
+	"net"
 	"net/http"
 	"net/http/httptest"
 	"strings"
+	"testing/fstest"
 	"time"
 
 	"github.com/labstack/echo/v4"
 )
 
 type c06Op struct {
-	K      string `json:"k"` // wh w fl bf af json blob nc redir stream xml jsonp rcfl fefl unwrap copy
+	// wh w fl bf af json blob nc redir stream xml jsonp rcfl fefl unwrap copy
+	// round 4: jsonpretty jsonpv xmlv xmlpretty render file filefs attach inline hijack
+	K      string `json:"k"`
 	C      int    `json:"c,omitempty"`
 	N      int    `json:"n,omitempty"`
 	H      int    `json:"h,omitempty"`
@@ -30,6 +35,11 @@ type c06Op struct {
 	Bad    bool   `json:"bad,omitempty"` // json: value that cannot be serialised
 	Chunks []int  `json:"chunks,omitempty"`
 	RErr   bool   `json:"rerr,omitempty"` // stream: reader ends with an error instead of EOF
+	// render: 0 no renderer registered, 1 renderer writes N bytes and fails, 2 renderer writes N bytes
+	// file/filefs/attach/inline: 0 the file blob.png (N bytes), 1 a directory with an index.html of
+	// N bytes, 2 a directory without index.html, 3 the file exists but the fs.FS hands out files
+	// without Seek (fsFile refuses them); Bad = a name that does not exist
+	Mode int `json:"mode,omitempty"`
 }
 
 type c06Case struct {
@@ -40,6 +50,17 @@ type c06Case struct {
 	// (httptest.ResponseRecorder does not); echo.Response itself has no ReadFrom, so io.Copy
 	// into it must still go through Response.Write
 	RF bool `json:"rf,omitempty"`
+	// the underlying writer has NO Flush method (Response.Flush commits, then panics)
+	NF bool `json:"nf,omitempty"`
+	// the underlying writer implements http.Hijacker (counts the call, returns a sentinel error)
+	HJ bool `json:"hj,omitempty"`
+	// request URL /?pretty (indent branches of JSON / JSONP / XML)
+	Pretty bool `json:"pretty,omitempty"`
+	// programs of EARLIER requests served before Ops through the same Echo on the same (recycled)
+	// context, each on its own fresh recording writer: Fresh=false consecutive e.ServeHTTP calls
+	// (sync.Pool hands the context back), Fresh=true e.NewContext once, then c.Reset before each
+	// later program
+	Prev [][]c06Op `json:"prev,omitempty"`
 	// thorough tier: run the program a second time behind a real net/http server and compare
 	// what the client receives with Response.Status / Response.Size
 	RoundTrip bool `json:"round_trip,omitempty"`
@@ -61,29 +82,92 @@ const (
 type c06Ev struct{ code, arg int }
 
 // ---- recording writer: net/http's rule ----
+// The core has only the three methods of http.ResponseWriter; Flush / ReadFrom / Hijack are added
+// by the method-set structs below so that all 8 combinations exist as distinct dynamic types.
 type c06Writer struct {
-	h       http.Header
-	calls   []int
-	sent    int // 0 = headers not out
-	sentCT  int
-	sentLoc bool
-	body    int
-	flushes int
-	cap     int
-	trace   *[]c06Ev
+	h        http.Header
+	calls    []int
+	sent     int // 0 = headers not out
+	sentCT   int
+	sentLoc  bool
+	sentDisp int // Content-Disposition in the header map at send time: 0 none, 1 attachment, 2 inline
+	body     int
+	flushes  int
+	hijacks  int
+	cap      int
+	trace    *[]c06Ev
 }
 
-// c06WriterRF is the recording writer with io.ReaderFrom: it drains the source into itself,
-// one recorded body write per read, like net/http's (*response).ReadFrom does via io.Copy.
-type c06WriterRF struct{ *c06Writer }
+type c06mF struct{ w *c06Writer }
+type c06mR struct{ w *c06Writer }
+type c06mH struct{ w *c06Writer }
 
-func (w c06WriterRF) ReadFrom(src io.Reader) (int64, error) {
+func (m c06mF) Flush()                                { m.w.flush() }
+func (m c06mR) ReadFrom(src io.Reader) (int64, error) { return m.w.readFrom(src) }
+func (m c06mH) Hijack() (net.Conn, *bufio.ReadWriter, error) {
+	m.w.hijacks++
+	return nil, nil, errC06Hijack
+}
+
+var errC06Hijack = errors.New("recording writer: no connection to hand out")
+
+// c06Under wraps the recording core into a writer with exactly the requested optional interfaces
+func c06Under(w *c06Writer, fl, rf, hj bool) http.ResponseWriter {
+	f, r, h := c06mF{w}, c06mR{w}, c06mH{w}
+	switch {
+	case fl && rf && hj:
+		return struct {
+			*c06Writer
+			c06mF
+			c06mR
+			c06mH
+		}{w, f, r, h}
+	case fl && rf:
+		return struct {
+			*c06Writer
+			c06mF
+			c06mR
+		}{w, f, r}
+	case fl && hj:
+		return struct {
+			*c06Writer
+			c06mF
+			c06mH
+		}{w, f, h}
+	case rf && hj:
+		return struct {
+			*c06Writer
+			c06mR
+			c06mH
+		}{w, r, h}
+	case fl:
+		return struct {
+			*c06Writer
+			c06mF
+		}{w, f}
+	case rf:
+		return struct {
+			*c06Writer
+			c06mR
+		}{w, r}
+	case hj:
+		return struct {
+			*c06Writer
+			c06mH
+		}{w, h}
+	}
+	return w
+}
+
+// readFrom: io.ReaderFrom of the recording writer: it drains the source into itself, one recorded
+// body write per read, like net/http's (*response).ReadFrom does via io.Copy.
+func (w *c06Writer) readFrom(src io.Reader) (int64, error) {
 	buf := make([]byte, 32*1024)
 	var total int64
 	for {
 		n, rerr := src.Read(buf)
 		if n > 0 {
-			k, werr := w.c06Writer.Write(buf[:n])
+			k, werr := w.Write(buf[:n])
 			total += int64(k)
 			if werr != nil {
 				return total, werr
@@ -130,6 +214,19 @@ func (w *c06Writer) send(code int) {
 	w.sent = code
 	w.sentCT = c06CTid(w.h.Get("Content-Type"))
 	w.sentLoc = w.h.Get("Location") != ""
+	w.sentDisp = c06DispID(w.h.Get("Content-Disposition"))
+}
+
+func c06DispID(v string) int {
+	switch {
+	case v == "":
+		return 0
+	case strings.HasPrefix(v, "attachment; filename="):
+		return 1
+	case strings.HasPrefix(v, "inline; filename="):
+		return 2
+	}
+	return 99
 }
 func (w *c06Writer) Header() http.Header { return w.h }
 func (w *c06Writer) WriteHeader(code int) {
@@ -158,7 +255,7 @@ func (w *c06Writer) Write(b []byte) (int, error) {
 	}
 	return acc, nil
 }
-func (w *c06Writer) Flush() {
+func (w *c06Writer) flush() {
 	w.implicit()
 	w.flushes++
 	*w.trace = append(*w.trace, c06Ev{c06RFlush, 0})
@@ -210,6 +307,27 @@ type c06Snap struct {
 	retErr                                           bool
 }
 
+// sizes the reductions of the model are valid for: xml.Encoder buffers 4096 bytes (one write for
+// small values), io.CopyN copies through a 32 KiB buffer (one write for small files)
+func c06XMLn(o c06Op) int {
+	if o.N > 1000 {
+		return 1000
+	}
+	return o.N
+}
+func c06FileN(o c06Op) int {
+	if o.N > 32768 {
+		return 32768
+	}
+	return o.N
+}
+
+func c06IsFile(k string) bool { return k == "file" || k == "filefs" || k == "attach" || k == "inline" }
+
+func c06FileFound(o c06Op) bool { return !o.Bad && o.Mode != 2 && o.Mode != 3 }
+
+func c06IsFlush(k string) bool { return k == "fl" || k == "rcfl" || k == "fefl" }
+
 func c06ModelOp(o c06Op) string {
 	switch o.K {
 	case "wh":
@@ -222,7 +340,7 @@ func c06ModelOp(o c06Op) string {
 		return wJoin("4", wInt(o.H))
 	case "af":
 		return wJoin("5", wInt(o.H))
-	case "json":
+	case "json", "jsonpretty":
 		return wJoin("6", wInt(o.C), wInt(o.N), wBool(!o.Bad))
 	case "blob":
 		return wJoin("7", wInt(o.C), wInt(o.CT), wInt(o.N))
@@ -254,6 +372,21 @@ func c06ModelOp(o c06Op) string {
 		}
 		p = append(p, wBool(o.RErr))
 		return strings.Join(p, " ")
+	case "jsonpv":
+		return wJoin("17", wInt(o.C), wInt(o.H), wInt(o.N), wBool(!o.Bad))
+	case "xmlv", "xmlpretty":
+		return wJoin("18", wInt(o.C), wInt(c06XMLn(o)), wBool(!o.Bad))
+	case "render":
+		return wJoin("19", wInt(o.C), wInt(o.N), wBool(o.Mode == 2))
+	case "file", "filefs", "attach", "inline":
+		disp := map[string]int{"attach": 1, "inline": 2}[o.K]
+		ct := 7
+		if o.Mode == 1 {
+			ct = 2 // index.html
+		}
+		return wJoin("20", wBool(c06FileFound(o)), wInt(c06FileN(o)), wInt(disp), wInt(ct))
+	case "hijack":
+		return "21"
 	}
 	return "0"
 }
@@ -261,15 +394,21 @@ func c06ModelOp(o c06Op) string {
 // does the op carry a status code that reaches Response (a "status write")?
 func c06CarriesStatus(o c06Op) bool {
 	switch o.K {
-	case "wh", "json", "blob", "nc", "stream", "xml", "jsonp":
+	case "wh", "json", "jsonpretty", "blob", "nc", "stream", "xml", "jsonp", "jsonpv", "xmlv", "xmlpretty":
 		return true
 	case "redir":
 		return o.C >= 300 && o.C <= 308
+	case "render":
+		return o.Mode == 2
+	case "file", "filefs", "attach", "inline":
+		return c06FileFound(o) // http.ServeContent's WriteHeader(200)
 	}
 	return false
 }
 
-// may the op make the headers go out, and with which status (pending = Response.Status before)?
+// may the op make the headers go out, and with which status?  `pending` is the status the
+// PROGRAM OF THIS REQUEST has preset so far (tracked by the harness from the program text, not read
+// from Response.Status): 0 = none.
 func c06ExpectedFirstStatus(o c06Op, pending int) (int, bool) {
 	switch o.K {
 	case "w", "fl", "rcfl", "fefl", "copy":
@@ -278,12 +417,17 @@ func c06ExpectedFirstStatus(o c06Op, pending int) (int, bool) {
 			return 200, true
 		}
 		return pending, true
-	case "json":
+	case "json", "jsonpretty":
 		if o.Bad {
 			return 0, false
 		}
 		return o.C, true
-	case "bf", "af", "unwrap":
+	case "bf", "af", "unwrap", "hijack":
+		return 0, false
+	case "file", "filefs", "attach", "inline":
+		if c06FileFound(o) {
+			return 200, true
+		}
 		return 0, false
 	}
 	if c06CarriesStatus(o) {
@@ -370,8 +514,54 @@ func c06ScanTrace(tr []c06Ev) string {
 	return ""
 }
 
-// c06Exec performs one operation of a handler program on the real echo.Context
-func c06Exec(ctx echo.Context, o c06Op, onBefore, onAfter func(h int), onReg func(code, h int)) (retN int, err error) {
+// c06Env: the Echo instance of a case with what the helpers need around it
+type c06Env struct {
+	e   *echo.Echo
+	mfs fstest.MapFS
+}
+
+func c06NewEnv() *c06Env {
+	env := &c06Env{e: echo.New(), mfs: fstest.MapFS{}}
+	env.e.Filesystem = env.mfs
+	return env
+}
+
+// c06NoSeekFS hands out files that are no io.ReadSeeker (only fs.File's three methods are promoted)
+type c06NoSeekFS struct{ fs.FS }
+
+func (f c06NoSeekFS) Open(name string) (fs.File, error) {
+	file, err := f.FS.Open(name)
+	if err != nil {
+		return nil, err
+	}
+	return struct{ fs.File }{file}, nil
+}
+
+type c06Renderer struct {
+	n    int
+	fail bool
+}
+
+var errC06Render = errors.New("renderer failed")
+
+func (t c06Renderer) Render(w io.Writer, name string, data interface{}, c echo.Context) error {
+	w.Write(make([]byte, t.n))
+	if t.fail {
+		return errC06Render
+	}
+	return nil
+}
+
+var errC06Panic = errors.New("the operation panicked")
+
+// c06Exec performs one operation of a handler program on the real echo.Context; a panic is
+// recovered per step (like the Recover middleware would for the whole handler) and handed back
+func c06Exec(env *c06Env, ctx echo.Context, o c06Op, onBefore, onAfter func(h int), onReg func(code, h int)) (retN int, err error, panicked any) {
+	defer func() {
+		if p := recover(); p != nil {
+			panicked, err = p, errC06Panic
+		}
+	}()
 	r := ctx.Response()
 	switch o.K {
 	case "wh":
@@ -388,11 +578,26 @@ func c06Exec(ctx echo.Context, o c06Op, onBefore, onAfter func(h int), onReg fun
 		h := o.H
 		onReg(c06RegA, h)
 		r.After(func() { onAfter(h) })
-	case "json":
-		if o.Bad {
-			err = ctx.JSON(o.C, make(chan int))
-		} else {
-			err = ctx.JSON(o.C, strings.Repeat("a", o.N))
+	case "json", "jsonpretty", "jsonpv", "xmlv", "xmlpretty":
+		var v interface{} = make(chan int)
+		if !o.Bad {
+			n := o.N
+			if o.K == "xmlv" || o.K == "xmlpretty" {
+				n = c06XMLn(o)
+			}
+			v = strings.Repeat("a", n)
+		}
+		switch o.K {
+		case "json":
+			err = ctx.JSON(o.C, v)
+		case "jsonpretty":
+			err = ctx.JSONPretty(o.C, v, "  ")
+		case "jsonpv":
+			err = ctx.JSONP(o.C, strings.Repeat("f", o.H), v)
+		case "xmlv":
+			err = ctx.XML(o.C, v)
+		case "xmlpretty":
+			err = ctx.XMLPretty(o.C, v, "  ")
 		}
 	case "blob":
 		b := make([]byte, o.N)
@@ -434,11 +639,74 @@ func c06Exec(ctx echo.Context, o c06Op, onBefore, onAfter func(h int), onReg fun
 	case "copy":
 		// a source without WriteTo: io.Copy looks for io.ReaderFrom on the destination
 		_, err = io.Copy(r, &c06Reader{chunks: append([]int(nil), o.Chunks...), rerr: o.RErr})
+	case "render":
+		switch o.Mode {
+		case 0:
+			env.e.Renderer = nil
+		case 1:
+			env.e.Renderer = c06Renderer{n: o.N, fail: true}
+		default:
+			env.e.Renderer = c06Renderer{n: o.N}
+		}
+		err = ctx.Render(o.C, "t", nil)
+	case "file", "filefs", "attach", "inline":
+		for k := range env.mfs {
+			delete(env.mfs, k)
+		}
+		data := make([]byte, c06FileN(o))
+		name := "blob.png"
+		switch o.Mode {
+		case 0:
+			env.mfs["blob.png"] = &fstest.MapFile{Data: data}
+		case 1:
+			env.mfs["dir/index.html"] = &fstest.MapFile{Data: data}
+			name = "dir"
+		case 2:
+			env.mfs["dir/other.png"] = &fstest.MapFile{Data: data}
+			name = "dir"
+		default:
+			env.mfs["blob.png"] = &fstest.MapFile{Data: data}
+		}
+		if o.Bad {
+			name = "missing.png"
+		}
+		var fsys fs.FS = env.mfs
+		if o.Mode == 3 {
+			fsys = c06NoSeekFS{env.mfs}
+		}
+		env.e.Filesystem = fsys
+		switch o.K {
+		case "file":
+			err = ctx.File(name)
+		case "filefs":
+			// Context.FileFS is a method of the concrete context (not of the interface); the
+			// exported route handler echo.StaticFileHandler lands in the same fsFile
+			if f, ok := ctx.(interface {
+				FileFS(string, fs.FS) error
+			}); ok && o.N%2 == 0 {
+				err = f.FileFS(name, fsys)
+			} else {
+				err = echo.StaticFileHandler(name, fsys)(ctx)
+			}
+		case "attach":
+			err = ctx.Attachment(name, "a\"b.png")
+		case "inline":
+			err = ctx.Inline(name, "a\"b.png")
+		}
+	case "hijack":
+		_, _, err = r.Hijack()
 	}
 	return
 }
 
 var errC06Unwrap = errors.New("Unwrap does not hand out the wrapped writer")
+
+func c06Target(c *c06Case) string {
+	if c.Pretty {
+		return "/?pretty"
+	}
+	return "/"
+}
 
 // c06RoundTrip runs the program behind a real net/http server: the status the client receives
 // must be Response.Status and the body length Response.Size (net/http drops bodies of
@@ -450,8 +718,13 @@ func c06RoundTrip(c *c06Case) string {
 			// comparison "client status == Response.Status" is meaningless there
 			return ""
 		}
+		if o.K == "hijack" {
+			// on a real connection Hijack really takes the connection away from net/http
+			return ""
+		}
 	}
-	e := echo.New()
+	env := c06NewEnv()
+	e := env.e
 	e.Logger.SetOutput(io.Discard)
 	var committed bool
 	var status int
@@ -465,7 +738,7 @@ func c06RoundTrip(c *c06Case) string {
 	e.GET("/", func(ctx echo.Context) error {
 		r := ctx.Response()
 		for _, o := range c.Ops {
-			c06Exec(ctx, o, func(int) {},
+			c06Exec(env, ctx, o, func(int) {},
 				func(int) { afterRuns++; sizeAtLastRun = r.Size },
 				func(code, _ int) {
 					if code == c06RegA && !afterReg {
@@ -485,7 +758,7 @@ func c06RoundTrip(c *c06Case) string {
 	// idle connections of http.DefaultTransport
 	client := srv.Client()
 	client.CheckRedirect = func(*http.Request, []*http.Request) error { return http.ErrUseLastResponse }
-	resp, err := client.Get(srv.URL + "/")
+	resp, err := client.Get(srv.URL + c06Target(c))
 	if err != nil {
 		return fmt.Sprintf("real server: no response: %v", err)
 	}
@@ -512,59 +785,102 @@ func c06RoundTrip(c *c06Case) string {
 	return ""
 }
 
+// what was recorded for one request of a case
+type c06Req struct {
+	w       *c06Writer
+	trace   []c06Ev
+	snaps   []c06Snap
+	hookMsg string // what a hook saw at the moment it ran, if that was wrong
+}
+
+func c06Programs(c *c06Case) [][]c06Op {
+	return append(append([][]c06Op(nil), c.Prev...), c.Ops)
+}
+
 func c06Run(ci any) (res Result) {
 	c := ci.(*c06Case)
-	var trace []c06Ev
-	w := &c06Writer{h: http.Header{}, cap: c.Cap, trace: &trace}
-	if c.Cap < 0 {
-		w.cap = -1
-	}
-	var under http.ResponseWriter = w
-	if c.RF {
-		under = c06WriterRF{w}
-	}
-	e := echo.New()
-	lg := &c06Logger{Logger: e.Logger, trace: &trace}
+	progs := c06Programs(c)
+	env := c06NewEnv()
+	e := env.e
+	lg := &c06Logger{Logger: e.Logger}
 	e.Logger = lg
 
-	var snaps []c06Snap
+	reqs := make([]*c06Req, len(progs))
+	cur := 0
 	oracle := ""
-	fail := func(i int, msg string) {
-		if oracle == "" {
-			oracle = fmt.Sprintf("step %d (%s): %s", i, c.Ops[i].K, msg)
-		}
-	}
 	tags := map[string]bool{}
 	opsAfterCommit := 0
-	hookMsg := "" // what a hook saw at the moment it ran
+	carried := false // an earlier request left something behind that the reset has to clear
 
 	handler := func(ctx echo.Context) error {
+		ri := cur
+		rq, w, ops := reqs[ri], reqs[ri].w, progs[ri]
+		fail := func(i int, msg string) {
+			if oracle == "" {
+				if len(progs) > 1 {
+					oracle = fmt.Sprintf("request %d of %d, step %d (%s): %s", ri+1, len(progs), i, ops[i].K, msg)
+				} else {
+					oracle = fmt.Sprintf("step %d (%s): %s", i, ops[i].K, msg)
+				}
+			}
+		}
 		r := ctx.Response()
-		for i, o := range c.Ops {
+		// what THIS request's program has asked for so far, read off the program text alone
+		pendingStatus := 0 // status preset by an uncommitted JSON / JSONPretty (0 = none: 200 goes out)
+		pendingDisp := 0   // Content-Disposition put into the header map by Attachment / Inline
+		if ri > 0 && (r.Committed || r.Size != 0) {
+			if oracle == "" {
+				oracle = fmt.Sprintf("request %d of %d starts with Committed=%v Size=%d on the recycled context", ri+1, len(progs), r.Committed, r.Size)
+			}
+		}
+		for i, o := range ops {
 			prevCommitted, prevStatus, prevSize := r.Committed, r.Status, r.Size
 			prevSent, prevCalls, prevBody, prevWarns := w.sent, len(w.calls), w.body, lg.n
-			retN, retErr := 0, false
-			var err error
-			retN, err = c06Exec(ctx, o,
+			prevFlushes, prevHijacks := w.flushes, w.hijacks
+			if prevSent == 0 {
+				switch o.K {
+				case "attach":
+					pendingDisp = 1
+				case "inline":
+					pendingDisp = 2
+				}
+			}
+			retN, err, panicked := c06Exec(env, ctx, o,
+				// a hook records itself in the request DURING WHICH it runs (a hook that survived a
+				// reset shows up in the later request's recording, where nothing registered it)
 				func(h int) {
-					trace = append(trace, c06Ev{c06RunB, h})
-					if (r.Committed || w.sent != 0) && hookMsg == "" {
-						hookMsg = fmt.Sprintf("before-hook %d ran with Committed=%v, headers out=%v", h, r.Committed, w.sent != 0)
+					cq := reqs[cur]
+					cq.trace = append(cq.trace, c06Ev{c06RunB, h})
+					if (r.Committed || cq.w.sent != 0) && cq.hookMsg == "" {
+						cq.hookMsg = fmt.Sprintf("before-hook %d ran with Committed=%v, headers out=%v", h, r.Committed, cq.w.sent != 0)
 					}
 				},
 				func(h int) {
-					trace = append(trace, c06Ev{c06RunA, h})
-					if (!r.Committed || w.sent == 0) && hookMsg == "" {
-						hookMsg = fmt.Sprintf("after-hook %d ran with Committed=%v, headers out=%v", h, r.Committed, w.sent != 0)
+					cq := reqs[cur]
+					cq.trace = append(cq.trace, c06Ev{c06RunA, h})
+					if (!r.Committed || cq.w.sent == 0) && cq.hookMsg == "" {
+						cq.hookMsg = fmt.Sprintf("after-hook %d ran with Committed=%v, headers out=%v", h, r.Committed, cq.w.sent != 0)
 					}
 				},
-				func(code, h int) { trace = append(trace, c06Ev{code, h}) })
-			retErr = err != nil
-			snaps = append(snaps, c06Snap{r.Committed, r.Status, int(r.Size), len(w.calls), w.sent, w.body, w.flushes, lg.n, retN, retErr})
+				func(code, h int) { rq.trace = append(rq.trace, c06Ev{code, h}) })
+			retErr := err != nil
+			rq.snaps = append(rq.snaps, c06Snap{r.Committed, r.Status, int(r.Size), len(w.calls), w.sent, w.body, w.flushes, lg.n, retN, retErr})
 
 			// ---------- model-free oracle: the property's clauses on what was recorded ----------
-			if hookMsg != "" {
-				fail(i, hookMsg)
+			if panicked != nil {
+				if c.NF && c06IsFlush(o.K) {
+					// Response.Flush on a writer that cannot flush panics by design — but only
+					// after it has committed: the clauses below must hold in the state it left
+					tags["flush-panics-on-nonflusher"] = true
+					if w.flushes != prevFlushes {
+						fail(i, "a flush reached an underlying writer that has no Flush method")
+					}
+				} else {
+					fail(i, fmt.Sprintf("panic: %v", panicked))
+				}
+			}
+			if rq.hookMsg != "" {
+				fail(i, rq.hookMsg)
 			}
 			if len(w.calls) > 1 {
 				fail(i, fmt.Sprintf("the underlying writer received WriteHeader %d times: %v", len(w.calls), w.calls))
@@ -601,13 +917,18 @@ func c06Run(ci any) (res Result) {
 				}
 			} else if w.sent != 0 {
 				// the headers went out in this step: first status wins
-				want, may := c06ExpectedFirstStatus(o, prevStatus)
+				want, may := c06ExpectedFirstStatus(o, pendingStatus)
 				if !may {
 					fail(i, fmt.Sprintf("headers went out (status %d) on an operation that writes nothing", w.sent))
 				} else if w.sent != want {
 					fail(i, fmt.Sprintf("first status set was %d but %d was sent", want, w.sent))
 				}
+				if w.sentDisp != pendingDisp {
+					fail(i, fmt.Sprintf("Content-Disposition kind %d was in the header map when the headers went out, the program asked for kind %d (0 none, 1 attachment, 2 inline)", w.sentDisp, pendingDisp))
+				}
 				tags["commit-by:"+o.K] = true
+			} else if o.K == "json" || o.K == "jsonpretty" {
+				pendingStatus = o.C // preset; goes out with the next implicit commit
 			}
 			if int(r.Size)-int(prevSize) != w.body-prevBody {
 				fail(i, fmt.Sprintf("Size grew by %d but %d bytes were written", int(r.Size)-int(prevSize), w.body-prevBody))
@@ -615,8 +936,22 @@ func c06Run(ci any) (res Result) {
 			if o.K == "unwrap" && err != nil {
 				fail(i, "Response.Unwrap() does not return the wrapped writer")
 			}
-			if (o.K == "rcfl" || o.K == "fefl") && err != nil {
+			if (o.K == "rcfl" || o.K == "fefl") && err != nil && !c.NF {
 				fail(i, fmt.Sprintf("flushing through the optional interfaces failed although the underlying writer can flush: %v", err))
+			}
+			if o.K == "hijack" {
+				tags["hijack"] = true
+				if r.Committed != prevCommitted || r.Status != prevStatus || r.Size != prevSize ||
+					w.sent != prevSent || len(w.calls) != prevCalls || w.body != prevBody || w.flushes != prevFlushes {
+					fail(i, "Hijack changed the response bookkeeping or wrote to the underlying writer")
+				}
+				if c.HJ {
+					if w.hijacks != prevHijacks+1 || !errors.Is(err, errC06Hijack) {
+						fail(i, fmt.Sprintf("Hijack did not reach the underlying http.Hijacker exactly once (calls %d -> %d, err %v)", prevHijacks, w.hijacks, err))
+					}
+				} else if !errors.Is(err, http.ErrNotSupported) {
+					fail(i, fmt.Sprintf("Hijack on a writer without http.Hijacker returned %v, not http.ErrNotSupported", err))
+				}
 			}
 			if o.K == "w" {
 				if retN != w.body-prevBody || (err != nil) != (retN < o.N) {
@@ -627,6 +962,22 @@ func c06Run(ci any) (res Result) {
 				tags["short-write"] = true
 			}
 		}
+		if ri+1 < len(progs) {
+			if !r.Committed && r.Status != 200 && r.Status != 0 {
+				tags["earlier-request-left-preset-status"] = true
+				carried = true
+			}
+			if r.Committed && (r.Status != 200 || r.Size > 0) {
+				tags["earlier-request-committed"] = true
+				carried = true
+			}
+			for _, o := range ops {
+				if o.K == "bf" || o.K == "af" {
+					tags["earlier-request-left-hooks"] = true
+					carried = true
+				}
+			}
+		}
 		return nil
 	}
 
@@ -635,18 +986,46 @@ func c06Run(ci any) (res Result) {
 			res = Result{Ops: c06Ops(c), Obs: "panic", Oracle: fmt.Sprintf("panic: %v", p), Tags: []string{"panic"}}
 		}
 	}()
-	req := httptest.NewRequest(http.MethodGet, "/", nil)
+	begin := func(i int) http.ResponseWriter {
+		cur = i
+		rq := &c06Req{}
+		rq.w = &c06Writer{h: http.Header{}, cap: c.Cap, trace: &rq.trace}
+		if c.Cap < 0 {
+			rq.w.cap = -1
+		}
+		reqs[i] = rq
+		lg.trace, lg.n = &rq.trace, 0
+		return c06Under(rq.w, !c.NF, c.RF, c.HJ)
+	}
 	if c.Fresh {
 		tags["fresh-context"] = true
-		handler(e.NewContext(req, under))
+		var ctx echo.Context
+		for i := range progs {
+			under := begin(i)
+			req := httptest.NewRequest(http.MethodGet, c06Target(c), nil)
+			if i == 0 {
+				ctx = e.NewContext(req, under)
+			} else {
+				ctx.Reset(req, under)
+			}
+			handler(ctx)
+		}
 	} else {
 		e.GET("/", handler)
-		e.ServeHTTP(under, req)
+		for i := range progs {
+			under := begin(i)
+			e.ServeHTTP(under, httptest.NewRequest(http.MethodGet, c06Target(c), nil))
+		}
 	}
-	if msg := c06ScanTrace(trace); msg != "" && oracle == "" {
-		oracle = "hooks/order: " + msg
+	for i, rq := range reqs {
+		if msg := c06ScanTrace(rq.trace); msg != "" && oracle == "" {
+			oracle = "hooks/order: " + msg
+			if len(progs) > 1 {
+				oracle = fmt.Sprintf("request %d of %d: %s", i+1, len(progs), oracle)
+			}
+		}
 	}
-	if c.RoundTrip && c.Cap < 0 {
+	if c.RoundTrip && c.Cap < 0 && len(c.Prev) == 0 {
 		tags["round-trip"] = true
 		if msg := c06RoundTrip(c); msg != "" && oracle == "" {
 			oracle = msg
@@ -654,38 +1033,62 @@ func c06Run(ci any) (res Result) {
 	}
 
 	// observation in the model's format
-	obs := []string{wInt(len(snaps))}
-	for _, s := range snaps {
-		obs = append(obs, wBool(s.committed), wInt(s.status), wInt(s.size), wInt(s.ncalls), wInt(s.sent),
-			wInt(s.body), wInt(s.flushes), wInt(s.warns), wInt(s.retN), wBool(s.retErr))
-	}
-	obs = append(obs, wInt(w.sentCT), wBool(w.sentLoc), wInt(len(trace)))
-	for _, ev := range trace {
-		obs = append(obs, wInt(ev.code), wInt(ev.arg))
+	obs := []string{wInt(len(reqs))}
+	for _, rq := range reqs {
+		obs = append(obs, wInt(len(rq.snaps)))
+		for _, s := range rq.snaps {
+			obs = append(obs, wBool(s.committed), wInt(s.status), wInt(s.size), wInt(s.ncalls), wInt(s.sent),
+				wInt(s.body), wInt(s.flushes), wInt(s.warns), wInt(s.retN), wBool(s.retErr))
+		}
+		obs = append(obs, wInt(rq.w.sentCT), wBool(rq.w.sentLoc), wInt(rq.w.sentDisp), wInt(len(rq.trace)))
+		for _, ev := range rq.trace {
+			obs = append(obs, wInt(ev.code), wInt(ev.arg))
+		}
 	}
 
 	// tags
 	nb, na := 0, 0
 	firstTouch := ""
-	for _, o := range c.Ops {
-		switch o.K {
-		case "bf":
-			nb++
-		case "af":
-			na++
-		default:
-			if firstTouch == "" {
-				firstTouch = o.K
+	for _, ops := range progs {
+		ft := ""
+		for _, o := range ops {
+			switch o.K {
+			case "bf":
+				nb++
+			case "af":
+				na++
+			default:
+				if ft == "" {
+					ft = o.K
+				}
+			}
+			switch o.K {
+			case "jsonpretty", "jsonpv", "xmlv", "xmlpretty", "render", "file", "filefs", "attach", "inline":
+				tags["op:"+o.K] = true
 			}
 		}
+		firstTouch = ft // of the last request
+	}
+	last := reqs[len(reqs)-1]
+	if len(progs) > 1 {
+		tags[fmt.Sprintf("requests-on-one-context:%d", len(progs))] = true
 	}
 	if c.RF {
 		tags["underlying-writer-is-ReaderFrom"] = true
 	}
+	if c.NF {
+		tags["underlying-writer-is-no-Flusher"] = true
+	}
+	if c.HJ {
+		tags["underlying-writer-is-Hijacker"] = true
+	}
+	if c.Pretty {
+		tags["query-pretty"] = true
+	}
 	if firstTouch == "rcfl" || firstTouch == "fefl" {
 		tags["flush-first-via-ResponseController/FlushError"] = true
 	}
-	if firstTouch == "fl" || firstTouch == "rcfl" || firstTouch == "fefl" {
+	if c06IsFlush(firstTouch) {
 		tags["flush-first"] = true
 	}
 	if nb > 0 {
@@ -697,15 +1100,18 @@ func c06Run(ci any) (res Result) {
 	if opsAfterCommit > 0 {
 		tags["ops-after-commit"] = true
 	}
-	if w.sent == 0 {
+	if last.w.sent == 0 {
 		tags["never-committed"] = true
 	}
 	var tl []string
 	for t := range tags {
 		tl = append(tl, t)
 	}
-	return Result{Ops: c06Ops(c), Obs: strings.Join(obs, " "), Oracle: oracle, Tags: tl,
-		Nontrivial: opsAfterCommit > 0 && (nb+na > 0 || firstTouch == "fl" || firstTouch == "rcfl" || firstTouch == "fefl" || tags["short-write"] || len(tl) >= 4)}
+	nontrivial := opsAfterCommit > 0 && (nb+na > 0 || c06IsFlush(firstTouch) || tags["short-write"] || len(tl) >= 4)
+	if carried && last.w.sent != 0 {
+		nontrivial = true
+	}
+	return Result{Ops: c06Ops(c), Obs: strings.Join(obs, " "), Oracle: oracle, Tags: tl, Nontrivial: nontrivial}
 }
 
 func c06Ops(c *c06Case) string {
@@ -717,349 +1123,13 @@ func c06Ops(c *c06Case) string {
 	if cap < 0 {
 		cap = 1 << 30
 	}
-	parts := []string{wInt(p), wInt(cap), wInt(len(c.Ops))}
-	for _, o := range c.Ops {
-		parts = append(parts, c06ModelOp(o))
+	progs := c06Programs(c)
+	parts := []string{wInt(p), wInt(cap), wBool(!c.NF), wInt(len(progs))}
+	for _, ops := range progs {
+		parts = append(parts, wInt(len(ops)))
+		for _, o := range ops {
+			parts = append(parts, c06ModelOp(o))
+		}
 	}
 	return strings.Join(parts, " ")
-}
-
-// ---------- generator ----------
-
-var c06Codes = []int{100, 101, 102, 103, 199, 200, 201, 202, 204, 206, 299, 300, 301, 302, 304, 307, 308, 309, 400, 401, 404, 418, 499, 500, 502, 503, 599}
-
-// Status codes: 200-599 plus the informational range 1xx.  echo.Response treats a 1xx code like
-// any other (WriteHeader(103) sets Status and commits); that is what the model says and what the
-// recording writer ("first WriteHeader wins") shows.  On a real connection net/http sends 1xx
-// headers as informational and lets a final status follow, so programs containing 1xx codes are
-// kept away from the real-server round trip (see c06RoundTrip).
-func c06Code(r *rand.Rand) int {
-	if r.Intn(4) == 0 {
-		return 200 + r.Intn(400)
-	}
-	return c06Codes[r.Intn(len(c06Codes))]
-}
-
-func c06Size(r *rand.Rand) int {
-	switch r.Intn(6) {
-	case 0:
-		return 0
-	case 1:
-		return 1
-	case 2:
-		return 1 + r.Intn(4096)
-	}
-	return r.Intn(24)
-}
-
-func c06GenOp(r *rand.Rand) c06Op {
-	switch r.Intn(20) {
-	case 0, 1:
-		return c06Op{K: "wh", C: c06Code(r)}
-	case 2, 3:
-		return c06Op{K: "w", N: c06Size(r)}
-	case 4, 5:
-		return c06Op{K: "fl"}
-	case 6:
-		return c06Op{K: "bf", H: 1 + r.Intn(4)}
-	case 7:
-		return c06Op{K: "af", H: 1 + r.Intn(4)}
-	case 8, 9:
-		return c06Op{K: "json", C: c06Code(r), N: c06Size(r), Bad: r.Intn(4) == 0}
-	case 10:
-		return c06Op{K: "blob", C: c06Code(r), CT: []int{1, 2, 3, 7}[r.Intn(4)], N: c06Size(r)}
-	case 11:
-		return c06Op{K: "nc", C: c06Code(r)}
-	case 12:
-		c := c06Code(r)
-		if r.Intn(2) == 0 {
-			c = []int{299, 300, 301, 302, 303, 307, 308, 309}[r.Intn(8)]
-		}
-		return c06Op{K: "redir", C: c}
-	case 13:
-		o := c06Op{K: "stream", C: c06Code(r), RErr: r.Intn(5) == 0}
-		for k := r.Intn(4); k > 0; k-- {
-			o.Chunks = append(o.Chunks, c06Size(r))
-		}
-		return o
-	case 14:
-		return c06Op{K: "xml", C: c06Code(r), N: c06Size(r)}
-	case 15:
-		return c06Op{K: "jsonp", C: c06Code(r), H: r.Intn(6), N: c06Size(r)}
-	case 16:
-		return c06Op{K: "rcfl"}
-	case 17:
-		return c06Op{K: "fefl"}
-	case 18:
-		if r.Intn(3) == 0 {
-			return c06Op{K: "unwrap"}
-		}
-		return c06Op{K: "rcfl"}
-	}
-	o := c06Op{K: "copy", RErr: r.Intn(5) == 0}
-	for k := r.Intn(4); k > 0; k-- {
-		o.Chunks = append(o.Chunks, c06Size(r))
-	}
-	return o
-}
-
-// total bytes a program would write with an unlimited writer (to aim capacities at boundaries)
-func c06Total(ops []c06Op) int {
-	c := &c06Case{Cap: -1, Ops: ops}
-	t := 0
-	for _, o := range c.Ops {
-		switch o.K {
-		case "w", "blob":
-			t += o.N
-		case "json":
-			if !o.Bad {
-				t += o.N + 3
-			}
-		case "stream", "copy":
-			for _, k := range o.Chunks {
-				t += k
-			}
-		case "xml":
-			t += 39 + o.N
-		case "jsonp":
-			t += o.H + 1 + o.N + 2
-		}
-	}
-	return t
-}
-
-func c06Adversarial(r *rand.Rand) []c06Op {
-	c1, c2 := c06Code(r), c06Code(r)
-	h := 1 + r.Intn(3)
-	tpl := [][]c06Op{
-		{{K: "fl"}, {K: "wh", C: c1}},
-		// the first flush comes through http.ResponseController / the FlushError convention
-		{{K: "rcfl"}, {K: "wh", C: c1}},
-		{{K: "bf", H: h}, {K: "rcfl"}, {K: "nc", C: c1}, {K: "w", N: 2}},
-		{{K: "bf", H: h}, {K: "fefl"}, {K: "blob", C: c1, CT: 1, N: 3}},
-		{{K: "json", C: c1, Bad: true}, {K: "rcfl"}, {K: "wh", C: c2}},
-		{{K: "unwrap"}, {K: "fefl"}, {K: "unwrap"}, {K: "json", C: c1, N: 1}},
-		// bodies produced by io.Copy from a source without WriteTo, with after-hooks watching
-		{{K: "af", H: h}, {K: "stream", C: c1, Chunks: []int{3, 0, 2}}},
-		{{K: "af", H: h}, {K: "copy", Chunks: []int{4, 1}}, {K: "af", H: h + 1}, {K: "copy", Chunks: []int{2}}},
-		{{K: "bf", H: h}, {K: "af", H: h}, {K: "copy", Chunks: []int{0, 0}}, {K: "wh", C: c1}, {K: "copy", Chunks: []int{5}, RErr: true}},
-		{{K: "af", H: h}, {K: "w", N: 1}, {K: "stream", C: c2, Chunks: []int{2, 2}, RErr: true}},
-		{{K: "bf", H: h}, {K: "wh", C: 103}, {K: "wh", C: c1}, {K: "w", N: 2}},
-		{{K: "wh", C: 100}, {K: "blob", C: c1, CT: 1, N: 3}},
-		{{K: "bf", H: h}, {K: "nc", C: 102}, {K: "json", C: c1, N: 1}},
-		{{K: "wh", C: 199}, {K: "fl"}, {K: "wh", C: c1}},
-		{{K: "fl"}, {K: "blob", C: c1, CT: 1, N: 3}},
-		{{K: "bf", H: h}, {K: "fl"}, {K: "w", N: 2}},
-		{{K: "bf", H: h}, {K: "fl"}, {K: "fl"}, {K: "wh", C: c1}},
-		{{K: "blob", C: c1, CT: 1, N: 2}, {K: "json", C: c2, N: 2}},
-		{{K: "nc", C: c1}, {K: "json", C: c2, N: 0, Bad: true}},
-		{{K: "json", C: c1, Bad: true}, {K: "w", N: 1}},
-		{{K: "json", C: c1, Bad: true}, {K: "fl"}},
-		{{K: "json", C: c1, Bad: true}, {K: "json", C: c2, N: 1}},
-		{{K: "wh", C: c1}, {K: "wh", C: c2}, {K: "w", N: 1}},
-		{{K: "w", N: 0}, {K: "wh", C: c1}},
-		{{K: "af", H: h}, {K: "jsonp", C: c1, H: 2, N: 3}, {K: "af", H: h + 1}, {K: "xml", C: c2, N: 1}},
-		{{K: "bf", H: h}, {K: "bf", H: h}, {K: "redir", C: 308}, {K: "bf", H: h + 1}, {K: "redir", C: 301}},
-		{{K: "redir", C: 299}, {K: "redir", C: 309}, {K: "redir", C: 300}},
-		{{K: "stream", C: c1, Chunks: []int{0, 2, 0, 3}}, {K: "stream", C: c2, Chunks: []int{1}, RErr: true}},
-		{{K: "bf", H: h}, {K: "af", H: h}, {K: "json", C: c1, N: 1}, {K: "fl"}, {K: "json", C: c2, N: 1}},
-	}
-	ops := append([]c06Op(nil), tpl[r.Intn(len(tpl))]...)
-	// surround with a little noise
-	for k := r.Intn(3); k > 0; k-- {
-		ops = append(ops, c06GenOp(r))
-	}
-	if r.Intn(4) == 0 {
-		ops = append([]c06Op{{K: []string{"bf", "af"}[r.Intn(2)], H: 4}}, ops...)
-	}
-	return ops
-}
-
-func c06Alphabet() []c06Op {
-	return []c06Op{
-		{K: "wh", C: 404}, {K: "rcfl"}, {K: "wh", C: 103}, {K: "w", N: 3}, {K: "w", N: 0}, {K: "fl"}, {K: "bf", H: 1}, {K: "af", H: 2},
-		{K: "json", C: 500, N: 2}, {K: "json", C: 418, Bad: true}, {K: "blob", C: 202, CT: 1, N: 2}, {K: "nc", C: 204},
-		{K: "redir", C: 302}, {K: "stream", C: 206, Chunks: []int{2, 1}}, {K: "copy", Chunks: []int{1, 2}},
-	}
-}
-
-func c06Gen(r *rand.Rand, tier string) []any {
-	var out []any
-	add := func(ops []c06Op) {
-		c := &c06Case{Cap: -1, Ops: ops, Fresh: r.Intn(5) == 0, RF: r.Intn(2) == 0}
-		if r.Intn(4) == 0 {
-			t := c06Total(ops)
-			switch r.Intn(4) {
-			case 0:
-				c.Cap = 0
-			case 1:
-				c.Cap = t
-			case 2:
-				if t > 0 {
-					c.Cap = t - 1
-				} else {
-					c.Cap = 0
-				}
-			default:
-				c.Cap = r.Intn(t + 2)
-			}
-		}
-		out = append(out, c)
-	}
-	// exhaustive over a small alphabet up to a length
-	alpha := c06Alphabet()
-	maxLen := 3
-	nRandom, nAdv, maxOps := 3000, 1500, 12
-	if tier == "thorough" {
-		maxLen = 4
-		nRandom, nAdv, maxOps = 200000, 50000, 24
-	}
-	var rec func(prefix []c06Op, l int)
-	rec = func(prefix []c06Op, l int) {
-		if len(prefix) > 0 {
-			out = append(out, &c06Case{Cap: -1, Ops: append([]c06Op(nil), prefix...), RF: len(out)%2 == 0})
-		}
-		if l == 0 {
-			return
-		}
-		for _, o := range alpha {
-			rec(append(prefix, o), l-1)
-		}
-	}
-	rec(nil, maxLen)
-	if tier == "thorough" {
-		// every program of exactly 5 operations over a 10-op core alphabet
-		core := []c06Op{
-			{K: "wh", C: 404}, {K: "rcfl"}, {K: "w", N: 3}, {K: "fl"}, {K: "bf", H: 1}, {K: "af", H: 2},
-			{K: "json", C: 500, N: 2}, {K: "json", C: 418, Bad: true}, {K: "blob", C: 202, CT: 1, N: 2}, {K: "copy", Chunks: []int{1, 2}},
-		}
-		var rec5 func(prefix []c06Op)
-		rec5 = func(prefix []c06Op) {
-			if len(prefix) == 5 {
-				out = append(out, &c06Case{Cap: -1, Ops: append([]c06Op(nil), prefix...), RF: len(out)%2 == 0})
-				return
-			}
-			for _, o := range core {
-				rec5(append(prefix, o))
-			}
-		}
-		rec5(nil)
-	}
-	for i := 0; i < nRandom; i++ {
-		n := 1 + r.Intn(maxOps)
-		var ops []c06Op
-		for j := 0; j < n; j++ {
-			ops = append(ops, c06GenOp(r))
-		}
-		add(ops)
-	}
-	for i := 0; i < nAdv; i++ {
-		add(c06Adversarial(r))
-	}
-	if tier == "thorough" {
-		for i := 0; i < 4000; i++ {
-			var ops []c06Op
-			if i%2 == 0 {
-				ops = c06Adversarial(r)
-			} else {
-				for j := 1 + r.Intn(8); j > 0; j-- {
-					ops = append(ops, c06GenOp(r))
-				}
-			}
-			for k := range ops {
-				if ops[k].C >= 100 && ops[k].C <= 199 {
-					ops[k].C += 100 // no informational codes on a real connection
-				}
-			}
-			out = append(out, &c06Case{Cap: -1, Ops: ops, RoundTrip: true})
-		}
-	}
-	return out
-}
-
-func c06Shrink(ci any) []any {
-	c := ci.(*c06Case)
-	var out []any
-	cp := func() *c06Case {
-		d := *c
-		d.Ops = append([]c06Op(nil), c.Ops...)
-		return &d
-	}
-	for i := range c.Ops {
-		if len(c.Ops) > 1 {
-			d := cp()
-			d.Ops = append(d.Ops[:i], d.Ops[i+1:]...)
-			out = append(out, d)
-		}
-	}
-	if c.Fresh {
-		d := cp()
-		d.Fresh = false
-		out = append(out, d)
-	}
-	if c.Cap >= 0 {
-		d := cp()
-		d.Cap = -1
-		out = append(out, d)
-	}
-	if c.RoundTrip {
-		d := cp()
-		d.RoundTrip = false
-		out = append(out, d)
-	}
-	if c.RF {
-		d := cp()
-		d.RF = false
-		out = append(out, d)
-	}
-	for i, o := range c.Ops {
-		if o.N > 1 {
-			d := cp()
-			d.Ops[i].N = 1
-			out = append(out, d)
-		}
-		if len(o.Chunks) > 0 {
-			d := cp()
-			d.Ops[i].Chunks = append([]int(nil), o.Chunks[1:]...)
-			out = append(out, d)
-		}
-		if o.RErr {
-			d := cp()
-			d.Ops[i].RErr = false
-			out = append(out, d)
-		}
-		if o.K == "jsonp" && o.H > 0 {
-			d := cp()
-			d.Ops[i].H = 0
-			out = append(out, d)
-		}
-	}
-	return out
-}
-
-func c06Mutate(r *rand.Rand, ci any) []any {
-	c := ci.(*c06Case)
-	var out []any
-	for k := 0; k < 40; k++ {
-		d := *c
-		d.Ops = append([]c06Op(nil), c.Ops...)
-		pos := r.Intn(len(d.Ops) + 1)
-		o := c06GenOp(r)
-		d.Ops = append(d.Ops[:pos], append([]c06Op{o}, d.Ops[pos:]...)...)
-		out = append(out, &d)
-	}
-	return out
-}
-
-func init() {
-	register(&Prop{
-		ID:             "C06",
-		Rule:           "handler programs over {WriteHeader, Write, Flush, Before, After, JSON (serialisable or not), String/HTML/JSONBlob/Blob, NoContent, Redirect (valid and invalid codes), Stream, XMLBlob, JSONPBlob, flush through http.ResponseController, flush through the FlushError convention (interface assertion, else Flush), Unwrap, io.Copy into the Response from a source without WriteTo}: exhaustive over a 15-op alphabet up to length 3 (thorough: 4, plus every program of length 5 over a 10-op core alphabet), random programs of 1-12 ops (thorough: 1-24), adversarial templates (flush first, helper after commit, unserialisable JSON then write, redirect code bounds, hooks around multi-write helpers); status codes 200-599 and 1xx (100-103, 199; echo.Response commits with them like with any other code); a quarter of the cases with a writer capacity at 0 / total-1 / total / random so writes come back short; half of the cases on an underlying writer that also implements io.ReaderFrom (like net/http's connection writer; httptest.ResponseRecorder does not); a fifth through Echo.NewContext (Status starts at 0) instead of ServeHTTP; thorough: 4000 programs additionally behind a real httptest.Server (client status/body length vs Response.Status/Size; no 1xx codes there, net/http treats them as informational); Response fields and the recording writer are sampled after EVERY step; non-trivial = at least one operation after the headers went out AND (a hook registered, or flush as first operation, or a short write, or >=4 distinct tags); distinct = distinct model op lines",
-		New:            func() any { return &c06Case{} },
-		Gen:            c06Gen,
-		Run:            c06Run,
-		Shrink:         c06Shrink,
-		Mutate:         c06Mutate,
-		Correspondence: "C06.runSnaps / C06.step (lean/EchoModel/C06.lean) vs echo.Response + echo.Context helpers over a recording http.ResponseWriter",
-	})
 }
